@@ -69,10 +69,10 @@ func init() {
 		Assumptions: []string{"murmur3/index() replaced by an arbitrary deterministic function of (item, i) (see C35)", "the Lua interpreter and the Redis model (TIME, SET PX NX with expiry by the server clock, MSET, EXISTS, RENAME, BITFIELD u1, INCRBY) are harness code", "the four filter keys are only touched by these scripts (no eviction, no foreign DEL)"},
 		Trusted:     []string{"harness/luasym.go.txt"},
 		Outside:     []string{"Reset/Delete (excluded by the statement)", "sub-millisecond timing", "windows other than 1 s, 2.001 s, 1 h (the window enters only through floor(ms/2))"},
-		Bounds:      map[string]any{"quick": "k = 1, one operation between add and final query", "thorough": "k ∈ {1,2}, two operations in between"},
+		Bounds:      map[string]any{"quick": "k = 1, one operation between add and final query", "thorough": "k ∈ {1,2}, one operation in between"},
 		specs: func(tier string) []specRef {
 			return []specRef{
-				probSpec("VerifC37_window", P{"max_k": q(tier, int64(1), 2), "ops": q(tier, int64(1), 2)}, probOverrides, 3000, "boundary", "rotated", "present"),
+				probSpec("VerifC37_window", P{"max_k": q(tier, int64(1), 2), "ops": 1}, probOverrides, 3000, "boundary", "rotated", "present"),
 			}
 		},
 	}
